@@ -139,7 +139,15 @@ def concretise(prog, ctr):
     return mk
 
 
-def serve(prog, env, extra_status=None, rewrite=False, oneshot=False, cookie=None):
+class _AppError(Exception):
+    pass
+
+
+# KeyboardInterrupt / SystemExit / MemoryError are passed on to the server by design and are not handler failures
+EXC_CLASSES = [ValueError, ValueError, KeyError, RecursionError, StopIteration, OSError, AssertionError, UnicodeError, _AppError, ArithmeticError]
+
+
+def serve(prog, env, extra_status=None, rewrite=False, oneshot=False, cookie=None, exc_class=ValueError):
     from ombott import Ombott
     ctr = Counter()
     mk = concretise(prog, ctr)
@@ -154,7 +162,7 @@ def serve(prog, env, extra_status=None, rewrite=False, oneshot=False, cookie=Non
                 # before-request hooks run BEFORE routing: a hook may send the request elsewhere (locale prefix, retired URL)
                 app.request['PATH_INFO'] = final_path
             if i == env['failAt']:
-                raise RuntimeError('before hook failed')
+                raise (exc_class if exc_class is not ValueError else RuntimeError)('before hook failed')
         app.add_hook('before_request', b)
         if i == 1:
             b_first = [b]
@@ -175,7 +183,8 @@ def serve(prog, env, extra_status=None, rewrite=False, oneshot=False, cookie=Non
 
     def handler():
         if prog['k'] == 'exc':
-            raise ValueError('handler failed')
+            # an arbitrary exception: ordinary ones, and ones that some code treats specially
+            raise exc_class('handler failed')
         if prog['k'] == 'raise':
             raise mk(prog['v'])
         if prog.get('setst'):
@@ -430,7 +439,8 @@ def run(chk):
     recs = []
     for w in wl:
         env = {k: w['env'][k] for k in ('method', 'fw', 'routing', 'nb', 'failAt', 'na', 'errh')}
-        obs = serve(w['prog'], env, rewrite=len(recs) % 3 == 0, oneshot=len(recs) % 4 == 1, cookie=[None, 'v1', '10\u20ac', '\u4e2d\xe9'][len(recs) % 4])
+        obs = serve(w['prog'], env, rewrite=len(recs) % 3 == 0, oneshot=len(recs) % 4 == 1, cookie=[None, 'v1', '10\u20ac', '\u4e2d\xe9'][len(recs) % 4],
+                    exc_class=EXC_CLASSES[len(recs) % len(EXC_CLASSES)])
         recs.append({'prog': w['prog'], 'env': env, 'obs': obs})
         chk.count(1, ('tlc', json.dumps(w['prog'], sort_keys=True), json.dumps(env, sort_keys=True)))
     chk.sample({'prog': recs[0]['prog'], 'env': recs[0]['env'], 'obs': {k: v for k, v in recs[0]['obs'].items()}})
@@ -445,7 +455,8 @@ def run(chk):
                'failAt': rng.choice([0, 0, 0] + list(range(1, nb + 1))), 'na': rng.choice([0, 1, 2]),
                'errh': rng.choice(['none', 'none', 'str', 'raise'])}
         prog.setdefault('setst', 0)
-        obs = serve(prog, env, rewrite=rng.random() < 0.3, oneshot=rng.random() < 0.3, cookie=rng.choice([None, None, 'a b', '10\u20ac', '\u0416', 'caf\xe9']))
+        obs = serve(prog, env, rewrite=rng.random() < 0.3, oneshot=rng.random() < 0.3, cookie=rng.choice([None, None, 'a b', '10\u20ac', '\u0416', 'caf\xe9']),
+                    exc_class=rng.choice(EXC_CLASSES))
         recs.append({'prog': prog, 'env': env, 'obs': obs})
         chk.count(1, ('rand', json.dumps(prog, sort_keys=True), json.dumps(env, sort_keys=True)))
     chk.sample({'prog': recs[-1]['prog'], 'env': recs[-1]['env'], 'obs': recs[-1]['obs']})
